@@ -140,6 +140,20 @@ CHECKS = {
              "unbounded strings. Recorded finding: label naming a non-leaf zone of a user tree. " + ENGINE_NOTE,
         technique="solver-based path-exhaustive symbolic execution of the real code (z3); labels as finite-domain solver choices",
     ),
+    "C13": dict(
+        category="model_checking",
+        text="The real curve-cleaning and graph-building functions (clean_composite_curve_ends, clean_composite_curve, _graph_cc, "
+             "_build_gcc_segments, _iter_gcc_segment_slices, _segment_bounds, _classify_segment, _create_curve) are executed symbolically on "
+             "arbitrary composite and grand-composite columns (enthalpies z3 reals, flat runs and repeats solver-chosen); per path: every "
+             "emitted point on the curve within display rounding, interpolation through the emitted points recovers every table row of the "
+             "non-flat extent within 0.01, segments join without gaps, class follows the sign of the enthalpy change. A second family runs the "
+             "pipeline and get_output_graph_data: one graph set per record keyed by its name, documented graph types, curve span = stream duty.",
+        design_ref="5/C13",
+        note="Curves of 3-6 rows on fixed temperature grids; consecutive enthalpies equal or >= 0.5 apart; 2-dp rounding over-approximated; in the "
+             "record family redundant-point removal is an identity stub (its own family covers it). Balanced/total-site curve families are "
+             "covered only through the record-level obligations. " + ENGINE_NOTE,
+        technique="solver-based path-exhaustive symbolic execution of the real code (z3, linear real arithmetic per path)",
+    ),
 }
 
 NOT_YET = {}
